@@ -166,6 +166,23 @@ def manifestStep (st : MState) (line : String) : MState × String :=
     match MFile.openExisting cd mf.file mf.ext mf.threshold with
     | .error e => (st, rErrStr e)
     | .ok (mf', m) => ({ mf := some mf' }, s!"ok {mf'.file.length} {dumpManifest m} {dumpManifest mf'.manifest}")
+  -- crash while appending: the file on disk loses its last k bytes (`tear`) or gains a torn
+  -- record (`tearapp`); the handle is closed and the file reopened (replay, truncate, seek to
+  -- the end, clone); later `add`s go through the reopened handle
+  | ["tear", k], some mf =>
+    match natArg k with
+    | none => (st, "bad-op")
+    | some k =>
+      match MFile.openExisting cd (mf.file.take (mf.file.length - k)) mf.ext mf.threshold with
+      | .error e => ({ mf := none }, rErrStr e)
+      | .ok (mf', m) => ({ mf := some mf' }, s!"ok {mf'.file.length} {dumpManifest m} {dumpManifest mf'.manifest}")
+  | ["tearapp", h], some mf =>
+    match hexArg h with
+    | none => (st, "bad-op")
+    | some t =>
+      match MFile.openExisting cd (mf.file ++ t) mf.ext mf.threshold with
+      | .error e => ({ mf := none }, rErrStr e)
+      | .ok (mf', m) => ({ mf := some mf' }, s!"ok {mf'.file.length} {dumpManifest m} {dumpManifest mf'.manifest}")
   | ["rawreplay", h, ext], _ =>
     match hexArg h, natArg ext with
     | some f, some ext => (st, replayStr (replay cd f ext))
